@@ -1,6 +1,7 @@
 import Goirc.Facts
 import Goirc.Model.Split
 import Goirc.Model.Commands
+import Goirc.Model.Line
 /-!
 # Tie A obligations: what was extracted from /repo now vs what the model assumes
 
@@ -139,6 +140,37 @@ theorem shape_Conn_Authenticate : Facts.shape_Conn_Authenticate = some "160ecf65
 
 /-- [C10] `Conn.rateLimit` is the body the model transcribes -/
 theorem shape_Conn_rateLimit : Facts.shape_Conn_rateLimit = some "304b797776fb4789" := by decide
+
+
+/-- [C01] the pairs handed to `strings.NewReplacer` for tag values are the five IRCv3 escapes
+`unesc1` knows: `\\:`→`;` `\\s`→space `\\\\`→`\\` `\\r`→CR `\\n`→LF -/
+theorem tagsReplacer_pairs : Facts.tagsReplacerArgs =
+    some [[92, 58], [59], [92, 115], [32], [92, 92], [92], [92, 114], [13], [92, 110], [10]] := by decide
+
+/-- [C01] each pair of the replacer is undone exactly as the model's `unesc1` says -/
+theorem tagsReplacer_matches_model :
+    [(58, 59), (115, 32), (92, 92), (114, 13), (110, 10)].all (fun p : UInt8 × UInt8 => unesc1 p.1 == some p.2) = true := by decide
+
+/-- [C01,C02] `ParseLine` is the body the model transcribes -/
+theorem shape_ParseLine : Facts.shape_ParseLine = some "2586de55234a8623" := by decide
+
+/-- [C01,C02] `parseUserHost` is the body the model transcribes -/
+theorem shape_parseUserHost : Facts.shape_parseUserHost = some "8d84cc2a587477ae" := by decide
+
+/-- [C01,C02] `Line.Text` is the body the model transcribes -/
+theorem shape_Line_Text : Facts.shape_Line_Text = some "97cceaccd81dbb57" := by decide
+
+/-- [C01,C02] `Line.Target` is the body the model transcribes -/
+theorem shape_Line_Target : Facts.shape_Line_Target = some "67ae5dc53f508d16" := by decide
+
+/-- [C01,C02] `Line.Public` is the body the model transcribes -/
+theorem shape_Line_Public : Facts.shape_Line_Public = some "b7b34f1deee05ce0" := by decide
+
+/-- [C01,C15] `Line.Copy` is the body the model transcribes -/
+theorem shape_Line_Copy : Facts.shape_Line_Copy = some "4bc3e325131cb205" := by decide
+
+/-- [C02] `Line.argslen` is the body the model transcribes -/
+theorem shape_Line_argslen : Facts.shape_Line_argslen = some "4bc497c6842944f2" := by decide
 
 
 end FactsCheck
